@@ -40,6 +40,7 @@ def run(ctx):
             V.append({"key": key, "what": what, "replay": dict(rp or {}, kind="c20", tree=tree_hash())})
     r = rng("c20")
     ncase = 0
+    ntie = 0
     samples = []
     base = dict(transfer_model="EH", lnk_min=-12.0, lnk_max=10.0, dlnk=0.1, dlog10m=0.05)
     configs = [dict(log_mmin=11.0, Mmax=15.0, z=0.0, hmf_model="Tinker08"), dict(log_mmin=13.0, Mmax=14.0, z=0.0, hmf_model="SMT"),
@@ -79,6 +80,14 @@ def run(ctx):
                 if np.any(np.diff(mt) > 0):
                     viol("not-descending", f"sort={flag!r} ({type(flag).__name__}) does not return masses in descending order ({int(np.sum(np.diff(mt) > 0))} of {len(mt) - 1} neighbouring pairs ascending)", {"sort": repr(flag)})
                     break
+            # tie of the list model `sampleMasses` (Props/C20: sort_only_reorders, masses_are_the_images_of_the_draws):
+            # with the same stream the sorted output is the descending rearrangement of the unsorted one
+            np.random.seed(seed)
+            mu, _hu = sample_mf(N, cfg["log_mmin"], sort=False, **kw)
+            ntie += 1
+            if len(mu) != len(m) or not np.array_equal(np.sort(mu)[::-1], m):
+                out["broken"].append({"kind": "correspondence", "what": "list model of sample_mf: with the same numpy seed, sort=True is not the descending rearrangement of sort=False (the model's `reverse (sort? (map f us))` no longer describes the code)",
+                                      "detail": {"config": str(cfg), "N": N, "seed": seed, "sorted_head": m[:3].tolist(), "unsorted_sorted_head": np.sort(mu)[::-1][:3].tolist()}})
             np.random.seed(seed)
             m2, h2 = sample_mf(N, cfg["log_mmin"], sort=True, **kw)
             if not np.array_equal(m, m2):
@@ -132,7 +141,7 @@ def run(ctx):
     out["coverage"] = {
         "evaluations": ncase * 4, "distinct_nontrivial": ncase,
         "rule": "configs (m_min, M_max, z, fit) incl. narrow ranges whose top is not deep in the tail; N in {2e4,5e4} (quick) up to 3e5; fixed seeds derived from VERIF_SEED; per config: list clauses, survival-function z-scores at up to 12 thresholds, repetition after the caller modified an earlier result, dndm_from_sample with integer bins and three explicit edge arrays (one overhanging the sample at both ends)",
-        "samples": samples, "search": "statistical oracles on the real sampler",
+        "list_model_ties": ntie, "samples": samples, "search": "statistical oracles on the real sampler",
     }
     return out
 
